@@ -98,6 +98,66 @@ CLAIMED = {
         technique="seeded statistical comparison of real trajectories with a dense master-equation reference, decided by a TLC trace specification (TrajTrace.tla)",
         design_ref="4/C17",
     ),
+    "C07": dict(
+        level="model_checking",
+        text="KrylovFn.tla transcribes the control flow of krylov_exp_impl / krylov_exp (incl. the confirmation step) with every floating-point test chosen by the environment; TLC checks "
+             "iterations <= max_krylov_dim, converged => accurate, raised <=> not converged, returned => accurate and termination over all control paths (max_krylov_dim <= 6) and refutes seeded "
+             "mechanism mutants. Every model path is realised on the real functions; every real execution (path realisations, stratified exploration over the operator classes of the property, "
+             "in-situ kry_exit events of real emu-sv / emu-mps runs) is validated by KrylovTrace.tla with `accurate` computed by a dense reference.",
+        note="Exhaustive only for control paths with max_krylov_dim <= 6; accuracy sampled; budget 10*tol*|v| + 64*eps*||A||*|v| + reference disagreement; norm_tolerance <= exp_tolerance.",
+        technique="TLA+ model checking (TLC) + exhaustive spec->code path realisation + TLC trace validation with reference-computed atoms",
+        design_ref="4/C07",
+    ),
+    "C08": dict(
+        level="model_checking",
+        text="KrylovFn.tla transcribes the restarted Lanczos ground-state search (best-residual Ritz pair, breakdown before residual test, cycles, restart, wrapper); TLC checks all control paths "
+             "with every residual-order pattern (max_krylov_dim <= 6, max_restarts <= 3): energy paired with the vector, converged and no breakdown => residual < tol, restart / iteration bounds, termination. "
+             "Model paths are realised on the real impl; every real execution (random Hermitian instances, DMRG in-situ kmin_exit events) is validated by KrylovTrace.tla with unit / Rayleigh / variational / residual atoms from eigh.",
+        note="Exhaustive only for small dimensions of the control model; slack 256*eps*||H||; claimed region residual_tolerance >= 16*eps*||H||.",
+        technique="TLA+ model checking (TLC) + spec->code path realisation + TLC trace validation with reference-computed atoms",
+        design_ref="4/C08",
+    ),
+    "C24": dict(
+        level="model_checking",
+        text="NoiseChannels.tla states get_lindblad_operators branch by branch next to Pulser's channel definitions on named levels; two operator lists are the same channel when their dissipators agree on every "
+             "matrix unit (exact Gaussian-integer arithmetic). TLC covers basis x dim x channel x amplitude and, for eff_noise, every matrix unit and pair; every TLC case plus random noise models is instantiated on the real "
+             "PulserData.lindblad_ops and judged against Pulser's own collapse-operator definitions.",
+        note="Trusted: Pulser's collapse-operator definitions; emulator level order (g,r[,x]) / (u,d[,x]); relative tolerance 1e-10.",
+        technique="TLA+ model checking (TLC) + exhaustive replay of spec cases on the real code + dissipator oracle",
+        design_ref="4/C24",
+    ),
+    "C04": dict(
+        level="model_checking",
+        text="EmuPipeline.tla (part D) states the acceptance checks of Pulser, the adapter and both backends in code order against AcceptedMeansImplemented over the 2688-row table "
+             "(backend x basis x Lindblad class x stochastic class x solver x initial state x atom class); rows become real 1-2 atom runs whose outcome is an exception or Results compared with the dense reference of the Pulser-defined Hamiltonian.",
+        note="Noise magnitudes negligible so the noiseless reference is the oracle; XY reference uses the C3 exchange term only (the C6 slice of pulser-core 1.9 is defined in pulser-simulation, absent).",
+        technique="TLA+ model checking (TLC) + spec->code replay of table rows + dense reference oracle",
+        design_ref="4/C04",
+    ),
+    "C33": dict(
+        level="model_checking",
+        text="EmuConfig.tla states MPSConfig.__init__ (autosave assertion, Krylov-tolerance floor, permutable-observable whitelist) and create_impl / DMRG refusal; TLC covers the full cross product and rows are replayed on the real "
+             "MPSConfig / create_impl, including the permutation actually used and the tolerance actually passed to krylov_exp (kry_exit hook).",
+        note="'Cannot be un-permuted' = {state, fidelity, expectation, entanglement_entropy, unknown observables}; products compared with 8 ulp slack.",
+        technique="TLA+ model checking (TLC) + spec->code replay + hook-based point-of-use observation",
+        design_ref="4/C33",
+    ),
+    "C34": dict(
+        level="model_checking",
+        text="EmuPipeline.tla (part R) states get_sequences (trajectories x reps) and run / Results.aggregate against AllTrajectoriesAggregated plus termination for any split of n_trajectories; real multi-trajectory runs of both backends "
+             "are traced (seq_yield / aggregate hooks + per-run Results) and validated by EmuPipelineTrace.tla; aggregated means, bitstring counters and totals are recomputed independently.",
+        note="Pulser's aggregator is recomputed by the harness; trajectory blocks recognised from (reps, bad_atoms) of consecutive seq_yield events.",
+        technique="TLA+ model checking with liveness (TLC) + TLC trace validation of real runs",
+        design_ref="4/C34",
+    ),
+    "C31": dict(
+        level="exploration",
+        text="The pulser-core specifier is read from both pyproject files; every pulser-core distribution available offline is smoke-run in a subprocess (import, construction of every Observable class, 9 end-to-end runs over both backends, "
+             "TDVP / DMRG / noisy / Lindblad / SPAM / custom interaction matrix / XY) and TLC evaluates Admitted => CanRun on the recorded table.",
+        note="Only pulser-core 1.9.1 exists offline (the wheelhouse has no pulser wheels), so the quantifier is covered for one version.",
+        technique="environment enumeration + subprocess smoke runs + TLC on the recorded table (EmuPipeline.tla part V)",
+        design_ref="4/C31",
+    ),
 }
 PENDING_REASON = "check not built yet in this round (planned in DESIGN.md section 4); not claimed until it runs"
 NOT_APPLICABLE = {}
